@@ -363,12 +363,15 @@ class Normaliser:
         if isinstance(fn, ast.Attribute) and fn.attr == "copy" and not args and not kws and not (d or "").startswith(("np.", "numpy.", "copy.")):
             return self.rat(fn.value)       # a copy has the value of what it copies
         if d is not None and isinstance(fn, ast.Attribute) and d.split(".")[0] in self.env and d.split(".")[0] not in self._active and d.count(".") == 1 \
-                and fn.attr not in METHOD_SYNONYM:
+                and fn.attr not in METHOD_SYNONYM and fn.attr not in ("reshape", "tolist", "copy", "astype"):
             # method call on an inlinable local: `rv.rvs(...)` with rv = ctor(...)  ->  `ctor(...).rvs(...)`
             name = f"{self.rat(fn.value)}.{fn.attr}"
             d = None
         if name is not None:
             pass
+        elif isinstance(fn, ast.Attribute) and fn.attr in ("reshape", "tolist", "astype") and not (d or "").startswith(("np.", "numpy.")):
+            name = fn.attr
+            args = [fn.value, *args]
         elif d is not None:
             q = self.qualify(d)
             if q in ABS:
@@ -450,6 +453,11 @@ class Normaliser:
             return self.rat(args[0])        # a copy of an array has its value
         if name == "cast" and len(args) == 2:
             return self.rat(args[1])
+        if name == "numpy.outer" and len(args) == 2 and not kws:
+            # np.outer(a, b) flattens both operands: it is the product of the column a by the row b
+            col = ast.Call(func=ast.Attribute(value=args[0], attr="reshape", ctx=ast.Load()), args=[ast.parse("(-1, 1)", mode="eval").body], keywords=[])
+            row = ast.Call(func=ast.Attribute(value=args[1], attr="reshape", ctx=ast.Load()), args=[ast.parse("(1, -1)", mode="eval").body], keywords=[])
+            return self.rat(ast.fix_missing_locations(ast.copy_location(ast.Call(func=ast.Attribute(value=col, attr="dot", ctx=ast.Load()), args=[row], keywords=[]), e)))
         if name == "*" and len(args) == 2:
             return self.rat(args[0]) * self.rat(args[1])
         if name == "/" and len(args) == 2:
